@@ -54,8 +54,42 @@ def conflict_scenarios(tier, seed, tail):
     return out
 
 
+SEQ_RESULTS = []
+
+
+def sequencing_runs(tier, seed, tail):
+    """Start / stop sequences disturbed by the loss of the target instance (at the request, during the start, during
+    the stop), by dropped events and by failing processes: when everything is over nobody is parked in DISTRIBUTION
+    and no job is left pending (SequencerMon, terminal formula C08.Progress)."""
+    import random
+    import vlib
+    import seq_check as sk
+    rnd = random.Random(seed * 3331 + 8)
+    n = 60 if tier == 'quick' else 1500
+    scs = []
+    while len(scs) < n:
+        sc = sk.gen_start_scenario(rnd, drops=True)
+        if 'lose' in sc or 'lose_at_req' in sc or len(scs) % 3 == 0:
+            scs.append(sc)
+    scs += [sk.gen_stop_scenario(rnd) for _ in range(n // 3)]
+    traces = sk.run_scenarios(scs)
+    v = vlib.Verdict('C08', tier, seed)
+    sk.judge(v, traces, scs, [], ['C08.Progress'], tag='seq08')
+    SEQ_RESULTS.append((v, len(traces), sum(len(t['steps']) for t in traces)))
+    return []
+
+
 def main(tier, seed, replay=None):
     if replay:
+        import json
+        with open(replay) as f:
+            rep = json.load(f)['replay']
+        if 'scenario' in rep:
+            import vlib
+            import seq_check as sk
+            v = vlib.Verdict('C08', tier, seed)
+            sk.judge(v, sk.run_scenarios([rep['scenario']]), [rep['scenario']], [], ['C08.Progress'])
+            return v.finish()
         return cc.replay_file(replay)
     q = tier == 'quick'
     e1 = [cl.Config(n=2, crash=1, restart=1, rounds=12, sync=('LIST', 'TIMEOUT')),
@@ -78,6 +112,6 @@ def main(tier, seed, replay=None):
         rnd += [cl.Config(n=3, crash=2, restart=2, cut=1, core=(1, 2), sync=('CORE', 'TIMEOUT'), fail='RESYNC')]
     return cc.run('C08', tier, seed, [], TERMINAL, e1, ['TerminalC08', 'NoRefusedForever'], [], sim, rnd,
                   n_beh=48 if q else 400, beh_depth=150, n_rnd=40 if q else 400, rnd_steps=250,
-                  e1_timeout=600 if q else 2400, inject=False, extra_scenarios=[conflict_scenarios],
+                  e1_timeout=600 if q else 2400, inject=False, extra_scenarios=[conflict_scenarios, sequencing_runs],
                   notes=['start/stop jobs are abstracted in Cluster.tla (the Master may be held in DISTRIBUTION); '
                          'job termination itself is C10'])
